@@ -29,6 +29,7 @@ type Input struct {
 	Present   []string     `json:"present"`  // directories existing at the start
 	DeadlineMs int         `json:"deadline_ms"`
 	PaceMs     int         `json:"pace_ms"` // pause after every operation (0 = as fast as possible; >0 = the watcher keeps up)
+	Probe      bool        `json:"probe"`   // after convergence, write a probe Spec into every existing configured directory
 }
 
 type EventsOut struct {
@@ -102,7 +103,7 @@ func events(in Input) EventsOut {
 				seq = append(seq, "INAPPLICABLE:"+op.String())
 				break
 			}
-			if op.Kind == "mkdir" {
+			if op.Kind == "mkdir" || op.Kind == "mvdir-in" {
 				_ = w.Add(filepath.Join(root, op.Dir))
 			}
 			barrier(i)
@@ -219,6 +220,38 @@ func replay(in Input) ReplayOut {
 				break
 			}
 			time.Sleep(2 * time.Millisecond)
+		}
+		// probe phase (as in the explorer): a Spec written now into every configured directory that
+		// exists must become visible without Refresh: the directory is still (or again) watched
+		if conv && in.Probe {
+			var want []string
+			for _, d := range in.Dirs {
+				if _, err := os.Stat(filepath.Join(root, d)); err == nil {
+					_ = os.WriteFile(filepath.Join(root, d, "probe.json"), []byte(`{"cdiVersion":"0.5.0","kind":"probe.org/`+d+`","devices":[{"name":"p","containerEdits":{"env":["P=1"]}}]}`), 0o644)
+					want = append(want, "probe.org/"+d+"=p")
+				}
+			}
+			pstart := time.Now()
+			for {
+				seen := map[string]bool{}
+				for _, q := range cache.ListDevices() {
+					seen[q] = true
+				}
+				missing := ""
+				for _, q := range want {
+					if !seen[q] {
+						missing = q
+					}
+				}
+				if missing == "" {
+					break
+				}
+				if time.Since(pstart) > deadline {
+					conv, detail = false, "a Spec written to a configured directory never becomes visible: "+missing
+					break
+				}
+				time.Sleep(2 * time.Millisecond)
+			}
 		}
 		_ = cache.Configure(cdi.WithAutoRefresh(false))
 		out.Converged = append(out.Converged, conv)
